@@ -1,10 +1,10 @@
 """C05 Kriging estimates solve the kriging equations: LHS/RHS layout agreement, symmetric assembly, chunk locality."""
 import ast
 import math
-from ..small import FoldError, fold
+from ..small import FoldError, fold, sym_eval, sym_text, _sym_subst
 
 from .. import ordtype as O
-from ..loader import AnalysisError, norm_stmt
+from ..loader import AnalysisError, call_name, norm_stmt
 from .C16 import signed_factors
 
 KB = "krige/base.py"
@@ -154,6 +154,24 @@ def covariance_family(ctx, rule="R05.3"):
     ctx.check(ev == ["ext_drift[:, slice(*chunk_slice)]"], rule, KB + "::Krige._get_krige_vecs", "external drift rows take the drift values of this chunk's targets", "ext-rhs")
 
 
+
+def kernel_sums(ctx, rule="R05.5"):
+    """The summation kernels compute field[k] = sum_i cond[i] sum_j M[i,j] v[j,k] and error[k] = sum_i v[i,k] sum_j M[i,j] v[j,k]."""
+    prog = ctx.prog
+    # kernels: field = cond^T M v_k ; error = v_k^T M v_k, identical field computation in both kernels
+    for kname in ("calc_field_krige_and_variance", "calc_field_krige"):
+        k = prog.func(KS, kname)
+        aug = {ast.unparse(n.target): n.value for n in ast.walk(k) if isinstance(n, ast.AugAssign)}
+        ok = signed_factors(aug.get("krig_fac", ast.Constant(0)))[1] == sorted(["krig_mat[i, j]", "krig_vecs[j, k]"]) and signed_factors(aug.get("field[k]", ast.Constant(0)))[1] == sorted(["cond[i]", "krig_fac"])
+        if kname.endswith("variance"):
+            ok = ok and signed_factors(aug.get("error[k]", ast.Constant(0)))[1] == sorted(["krig_vecs[i, k]", "krig_fac"])
+        ctx.check(ok, rule, "%s::%s" % (KS, kname), "field[k] = sum_i cond[i] sum_j M[i,j] v[j,k]" + ("; error[k] = sum_i v[i,k] sum_j M[i,j] v[j,k]" if kname.endswith("variance") else ""), "kernel-sum")
+        z = [n for n in ast.walk(k) if isinstance(n, ast.Assign) and ast.unparse(n.targets[0]) == "krig_fac"]
+        loops = [n for n in ast.walk(k) if isinstance(n, ast.For) and ast.unparse(n.target) == "i"]
+        ok = len(z) == 1 and ast.unparse(z[0].value) == "0.0" and len(loops) == 1 and any(s is z[0] for s in loops[0].body)
+        ctx.check(ok, rule, "%s::%s" % (KS, kname), "the inner accumulator is reset for every row i", "reset")
+
+
 def chunks(ctx, rule="R05.5"):
     prog = ctx.prog
     call = prog.func(KB, "Krige.__call__")
@@ -219,22 +237,18 @@ def chunks(ctx, rule="R05.5"):
     ok = ok and "field[c_slice] = _calc_field_krige(self._krige_mat, k_vec, self._krige_cond)" in st
     ctx.check(ok, rule, KB + "::Krige._summate", "estimate and variance of a chunk come from one kernel call on (inverse matrix, this chunk's right-hand sides, conditioning vector) and are written to the same slice", "summate")
     vec = prog.func(KB, "Krige._get_krige_vecs")
-    cs = [norm_stmt(s) for s in vec.body[:4] if isinstance(s, (ast.Assign, ast.AugAssign))]
-    ctx.check(cs[:2] == ["chunk_size = len(pos[0]) if chunk_slice[1] is None else chunk_slice[1]", "chunk_size -= chunk_slice[0]"], rule, KB + "::Krige._get_krige_vecs", "right-hand-side width equals the slice length", "width")
+    # the width of the right-hand-side block, as a symbolic value at the point where the block is allocated
+    alloc = [s for s in vec.body if isinstance(s, ast.Assign) and isinstance(s.value, ast.Call) and call_name(s.value) in ("np.empty", "np.zeros")]
+    if not alloc:
+        raise AnalysisError("anchor vanished: allocation of the right-hand-side block in Krige._get_krige_vecs")
+    shape = alloc[0].value.args[0] if alloc[0].value.args else None
+    env = sym_eval(vec.body, stop=alloc[0])
+    width = sym_text(_sym_subst(shape.elts[1], env)) if isinstance(shape, ast.Tuple) and len(shape.elts) == 2 else "?"
+    ctx.check(width == "(len(pos[0]) if chunk_slice[1] is None else chunk_slice[1]) - chunk_slice[0]", rule, KB + "::Krige._get_krige_vecs",
+              "right-hand-side width equals the slice length (symbolic value of the second extent: %s)" % width, "width")
     uses = sorted({ast.unparse(n) for n in ast.walk(vec) if isinstance(n, ast.Call) and ast.unparse(n.func) == "slice"})
     ctx.check(uses == ["slice(*chunk_slice)"], rule, KB + "::Krige._get_krige_vecs", "every per-target quantity (drift positions, external drift) is cut with the same chunk_slice", "one-slice")
-    # kernels: field = cond^T M v_k ; error = v_k^T M v_k, identical field computation in both kernels
-    for kname in ("calc_field_krige_and_variance", "calc_field_krige"):
-        k = prog.func(KS, kname)
-        aug = {ast.unparse(n.target): n.value for n in ast.walk(k) if isinstance(n, ast.AugAssign)}
-        ok = signed_factors(aug.get("krig_fac", ast.Constant(0)))[1] == sorted(["krig_mat[i, j]", "krig_vecs[j, k]"]) and signed_factors(aug.get("field[k]", ast.Constant(0)))[1] == sorted(["cond[i]", "krig_fac"])
-        if kname.endswith("variance"):
-            ok = ok and signed_factors(aug.get("error[k]", ast.Constant(0)))[1] == sorted(["krig_vecs[i, k]", "krig_fac"])
-        ctx.check(ok, rule, "%s::%s" % (KS, kname), "field[k] = sum_i cond[i] sum_j M[i,j] v[j,k]" + ("; error[k] = sum_i v[i,k] sum_j M[i,j] v[j,k]" if kname.endswith("variance") else ""), "kernel-sum")
-        z = [n for n in ast.walk(k) if isinstance(n, ast.Assign) and ast.unparse(n.targets[0]) == "krig_fac"]
-        loops = [n for n in ast.walk(k) if isinstance(n, ast.For) and ast.unparse(n.target) == "i"]
-        ok = len(z) == 1 and ast.unparse(z[0].value) == "0.0" and len(loops) == 1 and any(s is z[0] for s in loops[0].body)
-        ctx.check(ok, rule, "%s::%s" % (KS, kname), "the inner accumulator is reset for every row i", "reset")
+    kernel_sums(ctx, rule)
 
 
 def variants(ctx, rule="R05.7"):
@@ -277,6 +291,12 @@ def run(ctx):
     _K.accumulator_reset(ctx, rule="R05.11")
     _K.full_extent(ctx, rule="R05.11")
     _K.zero_init(ctx, rule="R05.11")
+    from . import C15_bounds
+    from .C15 import inputs_not_written
+
+    C15_bounds.run(ctx, rule="R05.11", files=("krige/krigesum.pyx",), floor=10)  # an index outside / on the wrong axis reads other memory than the sum is defined over
+    inputs_not_written(ctx, rule="R05.11", files=("krige/krigesum.pyx",))
+    _K.double_precision(ctx, rule="R05.11")  # single-precision accumulators / phases lose the exactness the property states
     _K.branch_free_krige_sums(ctx, rule="R05.11")
     from ..small import none_default_rule
     from .C20 import closure_rule
